@@ -11,7 +11,11 @@
 // nothing else.
 package simsync
 
-import "sync"
+import (
+	"bytes"
+	"reflect"
+	"sync"
+)
 
 // Hook is installed by the simulator.
 type Hook interface {
@@ -64,3 +68,99 @@ type Mutex struct{ rw RWMutex }
 
 func (m *Mutex) Lock()   { m.rw.Lock() }
 func (m *Mutex) Unlock() { m.rw.Unlock() }
+
+// ---------------------------------------------------------------- allocator seam
+
+// Pool stands in for sync.Pool in the scratch copy under simulation. It is deterministic (LIFO: Get
+// returns the object Put most recently, which is what sync.Pool does for one P) and adversarial within
+// what sync.Pool allows: an object handed back may be taken by any other goroutine at once, so the
+// bytes a pooled buffer holds at Put are overwritten on the spot ("poison on free"). Code that keeps
+// reading a buffer, or a slice of it, after Put sees the damage in a single-threaded run; code that
+// obeys the pool's contract cannot tell the difference. Only byte storage that is scratch by nature is
+// touched: *bytes.Buffer, []byte, *[]byte, and bytes.Buffer / *bytes.Buffer fields of a pooled struct.
+type Pool struct {
+	New func() any
+
+	mu    sync.Mutex
+	items []any
+}
+
+// PoolStats counts what the seam did (evidence only).
+var PoolStats struct {
+	mu                      sync.Mutex
+	Puts, Reused, Scribbled int64
+}
+
+func (p *Pool) Put(x any) {
+	if x == nil {
+		return
+	}
+	n := scribble(x)
+	p.mu.Lock()
+	p.items = append(p.items, x)
+	p.mu.Unlock()
+	PoolStats.mu.Lock()
+	PoolStats.Puts++
+	PoolStats.Scribbled += int64(n)
+	PoolStats.mu.Unlock()
+}
+
+func (p *Pool) Get() any {
+	p.mu.Lock()
+	if n := len(p.items); n > 0 {
+		x := p.items[n-1]
+		p.items = p.items[:n-1]
+		p.mu.Unlock()
+		PoolStats.mu.Lock()
+		PoolStats.Reused++
+		PoolStats.mu.Unlock()
+		return x
+	}
+	p.mu.Unlock()
+	if p.New != nil {
+		return p.New()
+	}
+	return nil
+}
+
+func fill(b []byte) int {
+	const junk = "\xa5<?>&;\"'\x00]"
+	b = b[:cap(b)]
+	for i := range b {
+		b[i] = junk[i%len(junk)]
+	}
+	return len(b)
+}
+
+func scribble(x any) int {
+	switch v := x.(type) {
+	case *bytes.Buffer:
+		if v == nil {
+			return 0
+		}
+		return fill(v.Bytes())
+	case []byte:
+		return fill(v)
+	case *[]byte:
+		if v == nil {
+			return 0
+		}
+		return fill(*v)
+	}
+	rv := reflect.ValueOf(x)
+	if rv.Kind() != reflect.Pointer || rv.IsNil() || rv.Elem().Kind() != reflect.Struct {
+		return 0
+	}
+	n := 0
+	st := rv.Elem()
+	for i := 0; i < st.NumField(); i++ {
+		f := st.Field(i)
+		switch {
+		case f.Type() == reflect.TypeOf(bytes.Buffer{}) && f.CanAddr() && f.Addr().CanInterface():
+			n += fill(f.Addr().Interface().(*bytes.Buffer).Bytes())
+		case f.Type() == reflect.TypeOf(&bytes.Buffer{}) && !f.IsNil() && f.CanInterface():
+			n += fill(f.Interface().(*bytes.Buffer).Bytes())
+		}
+	}
+	return n
+}
